@@ -507,6 +507,8 @@ class Executor(object):
             return SV("bool", z3.BoolVal(e.id == "True"))
         if e.id in self.classes:
             return SV("class", e.id)
+        if e.id in self.contracts:
+            return SV("func", e.id)  # module-level function under contract, called by its bare name
         if e.id in self.globals_:
             return self.globals_[e.id]
         raise Unsupported("unbound name %s at line %s" % (e.id, getattr(e, "lineno", "?")))
@@ -852,6 +854,11 @@ class Executor(object):
         return self.subscript_other(e, st, base)
 
     def subscript_other(self, e, st, base):
+        if base.kind == "tuple":
+            idx = self.ev(e.slice, st)
+            k = self._as_pyint(idx)
+            if k is not None and -len(base.t) <= k < len(base.t):
+                return base.t[k]
         raise Unsupported("subscript on %s at line %s" % (base.kind, getattr(e, "lineno", "?")))
 
     def assign_subscript(self, st, target, v, ln):
@@ -1317,6 +1324,8 @@ class Executor(object):
         rt = c.types.get("return")
         if rt and parse_type(rt).kind == "opaque":
             res = self.opaque()
+        elif rt and rt.startswith("tuple:"):
+            res = SV("tuple", tuple(self.fresh(k, "ret_%s_%d" % (fn.name, i)) for i, k in enumerate(rt.split(":")[1:])))
         elif rt:
             f = parse_type(rt)
             res = self.fresh(f.kind, "ret_%s" % fn.name, cls=f.cls, opt=f.opt)
